@@ -411,7 +411,7 @@ def obligations(tier):
     out = []
     out += specs("C14.rn2data", [{"n": n} for n in tiers(tier, [2, 3, 4], [2, 3, 4, 5, 6])], ob_rn2data, 1)
     out += specs("C14.gen_data", [{"n": n, "N": N} for n, N in tiers(tier, [(2, 2), (3, 2)], [(2, 2), (3, 2), (3, 3), (4, 3)])], ob_gen_data, 3)
-    out += specs("C14.empi", [{"m": m, "L": L, "K": K} for m, L, K in tiers(tier, [(2, 3, 1), (2, 3, 2), (3, 2, 2)], [(2, 3, 1), (2, 3, 2), (3, 2, 2), (2, 4, 2), (3, 4, 2), (2, 5, 3)])], ob_empi, 5)
+    out += specs("C14.empi", [{"m": m, "L": L, "K": K} for m, L, K in tiers(tier, [(2, 3, 1), (2, 3, 2), (3, 2, 2)], [(2, 3, 1), (2, 3, 2), (3, 2, 2), (2, 4, 2), (3, 3, 2), (2, 5, 1)])], ob_empi, 5)
     out += specs("C14.multinomial", [{"n": 3, "nums": [5, 10]}, {"n": 2, "nums": [1]}, {"n": 4, "nums": [3, 7, 20]}], ob_multinomial, 2)
     out += specs("C14.sizes", [{"entry": e} for e in tiers(tier, ("experiment", "qst", "povmt"), ("experiment", "qst", "povmt", "qpt", "qmpt"))], ob_sizes, 3)
     out += specs("C14.seed_flow", [{"entry": e} for e in ("empi_seq", "empi_seqs", "experiment", "qst", "qst_seeded")], ob_seed_flow, 3)
